@@ -1,4 +1,5 @@
-import SctpVerif.Proofs.PendQWfqFair
+import SctpVerif.Proofs.PendQWfqLag
+import Mathlib.Tactic.NormNum
 /-!
 # C17 — scheduler half: fragment order, contiguity without interleaving, round robin, WFQ, accounting
 
@@ -170,13 +171,18 @@ theorem C17_wfq_serves_min (ws : AMap Nat) (ops : List Op) (hops : Basic ops) (w
       exact hm
     | false => exact fun s' c' f' tl' hq' => (hselF hsel s' c' f' tl' hq').1
 
-/-- **WFQ fairness (headline).** Build the scheduler with any weights, run any basic operation list
-`pre` (reachable state), then any basic operation list `mid` such that streams `i` and `j` have queued
-data in every state along `mid`, and such that over `pre ++ mid` no push happens between a `peek` and
-the `pop` of the chunk it selected. Let `S_i`, `S_j` be the payload bytes of `i`, `j` popped during
-`mid`, `w_i`, `w_j` their weights and `L_i`, `L_j` bounds on the chunk sizes pushed on `i`, `j`. Then
-`|S_i/w_i − S_j/w_j| ≤ L_i/w_i + L_j/w_j` — one maximum-size chunk per stream, weight-normalised. -/
-theorem C17_wfq_fair (ws : AMap Nat) (pre mid : List Op) (hpre : Basic pre) (hmid : Basic mid)
+/-- **WFQ fairness, the statement's bound — holds when peek and pop are atomic.** Build the scheduler
+with any weights, run any basic operation list `pre` (reachable state), then any basic operation list
+`mid` such that streams `i` and `j` have queued data in every state along `mid`, and such that over
+`pre ++ mid` no push happens between a `peek` and the `pop` of the chunk it selected (`PQ.Atomic`).
+Let `S_i`, `S_j` be the payload bytes of `i`, `j` popped during `mid`, `w_i`, `w_j` their weights and
+`L_i`, `L_j` bounds on the chunk sizes pushed on `i`, `j`. Then
+`|S_i/w_i − S_j/w_j| ≤ L_i/w_i + L_j/w_j` — one maximum-size chunk per stream, weight-normalised.
+
+*Partial*: the hypothesis `PQ.Atomic` cannot be dropped — the association does push between a `peek`
+that found cwnd full and the later `pop` — see `C17_wfq_stated_bound_fails_with_stale_peek`; what
+holds for all operation lists is `C17_wfq_fair_partial`. -/
+theorem C17_wfq_fair_atomic_partial (ws : AMap Nat) (pre mid : List Op) (hpre : Basic pre) (hmid : Basic mid)
     (hat : PQ.Atomic (wfqFresh ws) (pre ++ mid)) (i j : Nat) (Li Lj : Nat)
     (hLi : ∀ c ∈ pushesOf ((wfqFresh ws).run (pre ++ mid)).2, c.sid = i → c.len ≤ Li)
     (hLj : ∀ c ∈ pushesOf ((wfqFresh ws).run (pre ++ mid)).2, c.sid = j → c.len ≤ Lj)
@@ -188,47 +194,82 @@ theorem C17_wfq_fair (ws : AMap Nat) (pre mid : List Op) (hpre : Basic pre) (hmi
   intro tr wi wj
   obtain ⟨hat1, hat2⟩ := (atomic_append _ pre mid).mp hat
   obtain ⟨w1, hq1, ha1, hwf1, hwt1, _⟩ := wfq_run pre (wfqFresh ws) _ (wfqFresh_policy ws) (WFQ.ainv_new ws) (WFQ.wf_new ws) hpre hat1
-  obtain ⟨w2, hq2, _, hcore⟩ := wfq_fair_core hq1 ha1 hwf1 mid hmid hat2 i j hall
+  obtain ⟨w2, hq2, hwf2, hcore⟩ := wfq_fair_core hq1 ha1 hwf1 mid hmid hat2 i j hall
   have hwi : WFQ.wt w1 i = wi := WFQ.wt_congr hwt1 i
   have hwj : WFQ.wt w1 j = wj := WFQ.wt_congr hwt1 j
   rw [hwi, hwj] at hcore
   have pi : 0 < wi := WFQ.wt_pos _ i
   have pj : 0 < wj := WFQ.wt_pos _ j
-  -- every queued chunk was pushed, so the head lengths are bounded by L
-  have hbasic : ∀ o ∈ pre ++ mid, o.basic = true := by
-    intro o ho; rcases List.mem_append.mp ho with h | h
-    · exact hpre o h
-    · exact hmid o h
   obtain ⟨hr1, hr2⟩ := run_append (wfqFresh ws) pre mid
-  have hpre_sub : ∀ c ∈ pushesOf ((wfqFresh ws).run pre).2, c ∈ pushesOf ((wfqFresh ws).run (pre ++ mid)).2 := by
+  have hsub : ∀ c ∈ pushesOf ((wfqFresh ws).run pre).2, c ∈ pushesOf ((wfqFresh ws).run (pre ++ mid)).2 := by
     intro c hc; rw [hr2, pushesOf_append]; exact List.mem_append_left _ hc
-  have hbound : ∀ (k L : Nat), (∀ c ∈ pushesOf ((wfqFresh ws).run (pre ++ mid)).2, c.sid = k → c.len ≤ L) →
-      WFQ.headLen w1 k ≤ L ∧ WFQ.headLen w2 k ≤ L := by
-    intro k L hL
-    constructor
-    · unfold WFQ.headLen
-      cases hh : w1.sq k with
-      | nil => simp
-      | cons x tl =>
-        simp only [List.head?_cons]
-        have hm := wfq_queued_mem_pushes ws pre hpre hq1 (s := k) (x := x) (by rw [hh]; simp)
-        exact hL x.1 (hpre_sub _ hm) (WFQ.sid_of_mem_sq hwf1 (by rw [hh]; simp))
-    · unfold WFQ.headLen
-      have hq2' : ((wfqFresh ws).run (pre ++ mid)).1.policy = .wfq w2 := by rw [hr1]; exact hq2
-      obtain ⟨w0, hq0, _, hwf2, _⟩ := wfq_run_g (pre ++ mid) (wfqFresh ws) _ (wfqFresh_policy ws) (WFQ.ginv_new ws) (WFQ.wf_new ws) hbasic
-      rw [hq2'] at hq0; cases hq0
-      cases hh : w2.sq k with
-      | nil => simp
-      | cons x tl =>
-        simp only [List.head?_cons]
-        have hm := wfq_queued_mem_pushes ws (pre ++ mid) hbasic hq2' (s := k) (x := x) (by rw [hh]; simp)
-        exact hL x.1 hm (WFQ.sid_of_mem_sq hwf2 (by rw [hh]; simp))
-  obtain ⟨bi1, bi2⟩ := hbound i Li hLi
-  obtain ⟨bj1, bj2⟩ := hbound j Lj hLj
+  have hq2' : ((wfqFresh ws).run (pre ++ mid)).1.policy = .wfq w2 := by rw [hr1]; exact hq2
+  have bi1 := wfq_headLen_le ws pre hpre hq1 hwf1 i Li (fun c hc => hLi c (hsub c hc))
+  have bj1 := wfq_headLen_le ws pre hpre hq1 hwf1 j Lj (fun c hc => hLj c (hsub c hc))
+  have bi2 := wfq_headLen_le ws (pre ++ mid) (basic_append hpre hmid) hq2' hwf2 i Li hLi
+  have bj2 := wfq_headLen_le ws (pre ++ mid) (basic_append hpre hmid) hq2' hwf2 j Lj hLj
   have mi : (max (WFQ.headLen w1 i) (WFQ.headLen w2 i) : Rat) / wi ≤ (Li : Rat) / wi :=
     div_le_div_of_nonneg_right (max_le (by exact_mod_cast bi1) (by exact_mod_cast bi2)) (le_of_lt pi)
   have mj : (max (WFQ.headLen w1 j) (WFQ.headLen w2 j) : Rat) / wj ≤ (Lj : Rat) / wj :=
     div_le_div_of_nonneg_right (max_le (by exact_mod_cast bj1) (by exact_mod_cast bj2)) (le_of_lt pj)
+  linarith
+
+/-- **WFQ fairness for every operation list — the bound the code really achieves.** As above, but
+`pre` and `mid` are arbitrary lists of push / peek / pop: pushes may slip in between a `peek` and the
+`pop` of the chunk it selected, as happens whenever `popPendingDataChunksToSend` stops on a full
+window. If `D` bounds the weight-normalised size `len/weight` of every chunk pushed (on any stream),
+then `|S_i/w_i − S_j/w_j| ≤ L_i/w_i + L_j/w_j + D`: the statement's bound plus one maximum-size chunk of
+an arbitrary third stream, normalised by THAT stream's weight.
+
+*Partial*: weaker than the property statement by the term `D`. The term is needed
+(`C17_wfq_stated_bound_fails_with_stale_peek`); it is the lateness `WFQ.lam` the two streams carry
+into the interval (`wfq_fair_lag_core` proves the bound with `max (lam i) (lam j)` in place of `D`),
+which is 0 along atomic runs. -/
+theorem C17_wfq_fair_partial (ws : AMap Nat) (pre mid : List Op) (hpre : Basic pre) (hmid : Basic mid)
+    (i j : Nat) (Li Lj : Nat) (D : Rat)
+    (hLi : ∀ c ∈ pushesOf ((wfqFresh ws).run (pre ++ mid)).2, c.sid = i → c.len ≤ Li)
+    (hLj : ∀ c ∈ pushesOf ((wfqFresh ws).run (pre ++ mid)).2, c.sid = j → c.len ≤ Lj)
+    (hD : ∀ c ∈ pushesOf ((wfqFresh ws).run (pre ++ mid)).2, (c.len : Rat) / WFQ.wt (WFQ.new ws : WFQ Rat) c.sid ≤ D)
+    (hall : PQ.AllStates (fun q => q.backlogged i ∧ q.backlogged j) ((wfqFresh ws).run pre).1 mid) :
+    let tr := (((wfqFresh ws).run pre).1.run mid).2
+    let wi := WFQ.wt (WFQ.new ws : WFQ Rat) i
+    let wj := WFQ.wt (WFQ.new ws : WFQ Rat) j
+    |(served tr i : Rat) / wi - (served tr j : Rat) / wj| ≤ (Li : Rat) / wi + (Lj : Rat) / wj + D := by
+  intro tr wi wj
+  obtain ⟨hr1, hr2⟩ := run_append (wfqFresh ws) pre mid
+  have hsub : ∀ c ∈ pushesOf ((wfqFresh ws).run pre).2, c ∈ pushesOf ((wfqFresh ws).run (pre ++ mid)).2 := by
+    intro c hc; rw [hr2, pushesOf_append]; exact List.mem_append_left _ hc
+  -- `i` is backlogged at the start of `mid`, so something was pushed and `D ≥ 0`
+  obtain ⟨w0, hq0, _, hwf0, _⟩ := wfq_run_g pre (wfqFresh ws) _ (wfqFresh_policy ws) (WFQ.ginv_new ws) (WFQ.wf_new ws) hpre
+  have hD0 : 0 ≤ D := by
+    have hb := (PQ.AllStates.head hall).1
+    have hne : w0.sq i ≠ [] := (backlogged_wfq hq0 i).mp hb
+    cases hh : w0.sq i with
+    | nil => exact absurd hh hne
+    | cons x tl =>
+      have hm := wfq_queued_mem_pushes ws pre hpre hq0 (s := i) (x := x) (by rw [hh]; simp)
+      exact le_trans (WFQ.div_wt_nonneg _ _ _) (hD x.1 (hsub _ hm))
+  obtain ⟨w1, hq1, hg1, hwf1, hl1, hwt1⟩ := wfq_run_linv D hD0 pre (wfqFresh ws) _ (wfqFresh_policy ws)
+    (WFQ.ginv_new ws) (WFQ.wf_new ws) (WFQ.linv_new ws D) hpre (fun c hc => hD c (hsub c hc))
+  obtain ⟨w2, hq2, hwf2, hcore⟩ := wfq_fair_lag_core hq1 hg1 hwf1 mid hmid i j hall
+  have hwi : WFQ.wt w1 i = wi := WFQ.wt_congr hwt1 i
+  have hwj : WFQ.wt w1 j = wj := WFQ.wt_congr hwt1 j
+  rw [hwi, hwj] at hcore
+  have pi : 0 < wi := WFQ.wt_pos _ i
+  have pj : 0 < wj := WFQ.wt_pos _ j
+  have hb := PQ.AllStates.head hall
+  have li := WFQ.lam_le_of_linv hD0 hl1 ((backlogged_wfq hq1 i).mp hb.1)
+  have lj := WFQ.lam_le_of_linv hD0 hl1 ((backlogged_wfq hq1 j).mp hb.2)
+  have hq2' : ((wfqFresh ws).run (pre ++ mid)).1.policy = .wfq w2 := by rw [hr1]; exact hq2
+  have bi1 := wfq_headLen_le ws pre hpre hq1 hwf1 i Li (fun c hc => hLi c (hsub c hc))
+  have bj1 := wfq_headLen_le ws pre hpre hq1 hwf1 j Lj (fun c hc => hLj c (hsub c hc))
+  have bi2 := wfq_headLen_le ws (pre ++ mid) (basic_append hpre hmid) hq2' hwf2 i Li hLi
+  have bj2 := wfq_headLen_le ws (pre ++ mid) (basic_append hpre hmid) hq2' hwf2 j Lj hLj
+  have mi : (max (WFQ.headLen w1 i) (WFQ.headLen w2 i) : Rat) / wi ≤ (Li : Rat) / wi :=
+    div_le_div_of_nonneg_right (max_le (by exact_mod_cast bi1) (by exact_mod_cast bi2)) (le_of_lt pi)
+  have mj : (max (WFQ.headLen w1 j) (WFQ.headLen w2 j) : Rat) / wj ≤ (Lj : Rat) / wj :=
+    div_le_div_of_nonneg_right (max_le (by exact_mod_cast bj1) (by exact_mod_cast bj2)) (le_of_lt pj)
+  have := max_le li lj
   linarith
 
 -- the theorems above are not vacuous: a run that fragments, switches mode and interleaves
